@@ -19,7 +19,36 @@ import (
 // gwHarness wraps one real gateway (rewritten sources) over in-memory services whose
 // RoundTrip yields to the scheduler, so that completion order is an explorer choice.
 type gwHarness struct {
-	fed *a.Fed
+	fed   *a.Fed
+	guard *connGuard
+	world string
+	cfg   a.Config
+	// fresh: build a new gateway for every execution (the slow path taken when executions turn out
+	// not to be independent, i.e. the gateway carries state from one execution into the next)
+	fresh bool
+	setup func(h *gwHarness) // re-applied to a rebuilt gateway (fault plans etc.)
+}
+
+// begin is called by every harness factory before an execution starts (pass-through mode).
+func (h *gwHarness) begin() {
+	if !h.fresh {
+		return
+	}
+	n := newGWHarness(h.world, h.cfg)
+	h.fed, h.guard = n.fed, n.guard
+	if h.setup != nil {
+		h.setup(h)
+	}
+}
+
+// freshCopy returns a harness over the same world that rebuilds its gateway per execution.
+func (h *gwHarness) freshCopy() *gwHarness {
+	n := newGWHarness(h.world, h.cfg)
+	n.fresh, n.setup = true, h.setup
+	if n.setup != nil {
+		n.setup(n)
+	}
+	return n
 }
 
 func newGWHarness(world string, cfg a.Config) *gwHarness {
@@ -34,7 +63,7 @@ func newGWHarness(world string, cfg a.Config) *gwHarness {
 		panic(err)
 	}
 	f.Fakes.Hook = func(url string) { vrt.Touch("transport") } // orders the calls in the goroutine histories (state cache soundness)
-	return &gwHarness{fed: f}
+	return &gwHarness{fed: f, guard: newConnGuard(f), world: world, cfg: cfg}
 }
 
 func bodyOf(q string, vars map[string]interface{}) json.RawMessage {
